@@ -19,9 +19,17 @@ import (
 	"verif.local/simrt/simsync"
 )
 
-const NK = 8
+const NK = 96
 
-var keyNames = [NK]string{"", "a", "ключ", "b", "k4", "日本", "k 6", "\x00z"}
+// keyNames: eight awkward names, then plain ones (the bulk scenarios of C14 fill
+// the store well beyond any small-size fast path).
+var keyNames = func() (k [NK]string) {
+	copy(k[:], []string{"", "a", "ключ", "b", "k4", "日本", "k 6", "\x00z"})
+	for i := 8; i < NK; i++ {
+		k[i] = "item_" + strconv.Itoa(i)
+	}
+	return
+}()
 
 // Op is one client operation. Values are codes: i<n> int, s<n> string, f<n>
 // float64 n+0.5, bt/bf bool, nil; p<n> is a poison string only ever written
@@ -602,7 +610,48 @@ func gen(prop, tier string, r *rand.Rand, idx int) any {
 	sc := &Scn{}
 	if prop == "C14" && r.IntN(2) == 0 {
 		// sequential refinement: one client, long history, wide key space
-		g.nkeys = 2 + r.IntN(NK-1)
+		g.nkeys = 2 + r.IntN(7)
+		if r.IntN(8) == 0 {
+			// bulk: grow the store to most of the key space, then shrink it key by
+			// key, asking questions all the way (size-dependent code paths)
+			g.nkeys = NK
+			var ops []Op
+			ask := func() {
+				switch r.IntN(6) {
+				case 0:
+					ops = append(ops, Op{Kind: "len"})
+				case 1:
+					ops = append(ops, Op{Kind: "has", Key: r.IntN(NK)})
+				case 2:
+					ops = append(ops, Op{Kind: "get", Key: r.IntN(NK)})
+				}
+			}
+			grow := r.Perm(NK)[:NK-r.IntN(30)]
+			for _, k := range grow {
+				if r.IntN(4) == 0 {
+					ops = append(ops, Op{Kind: "merge", Keys: []int{k}, Vals: []string{g.val()}})
+				} else {
+					ops = append(ops, Op{Kind: "set", Key: k, Val: g.val()})
+				}
+				ask()
+			}
+			ops = append(ops, Op{Kind: "keys"})
+			shrink := r.Perm(NK)[:NK-r.IntN(12)]
+			for _, k := range shrink {
+				ops = append(ops, Op{Kind: "delete", Key: k})
+				if r.IntN(2) == 0 {
+					ops = append(ops, Op{Kind: "has", Key: k})
+				}
+				ask()
+			}
+			ops = append(ops, Op{Kind: "len"}, Op{Kind: "keys"}, Op{Kind: "getall"})
+			for i := r.IntN(20); i > 0; i-- {
+				ops = append(ops, g.op(true))
+			}
+			sc.Clients = [][]Op{ops}
+			sc.NKeys = g.nkeys
+			return sc
+		}
 		n := []int{3, 10, 40, 200}[r.IntN(4)]
 		if tier == "thorough" {
 			n = []int{3, 10, 60, 200}[r.IntN(4)]
